@@ -26,3 +26,22 @@ def rdm (rd0 : String → Nat → Nat) (m : Mem) (f : String) (a : Nat) : Nat :=
   | some v => v
   | none => rd0 f a
 def wrm (m : Mem) (f : String) (a : Nat) (v : Nat) : Mem := ((f, a), v) :: m
+
+/-- `while (c) body` over the tuple of variables the body assigns, with fuel (the translator passes 2^64, more iterations than any
+    loop over a `size_t` counter can make; safety statements are proved for every fuel by `whileN_inv`). -/
+def whileN {σ : Type} : Nat → (σ → Bool) → (σ → σ) → σ → σ
+  | 0, _, _, s => s
+  | n + 1, c, body, s => if c s then whileN n c body (body s) else s
+
+/-- loop invariant rule: what the body preserves while the condition holds, holds when the loop stops (for every fuel) -/
+theorem whileN_inv {σ : Type} (P : σ → Prop) (c : σ → Bool) (body : σ → σ)
+    (hstep : ∀ s, P s → c s = true → P (body s)) : ∀ (n : Nat) (s : σ), P s → P (whileN n c body s) := by
+  intro n
+  induction n with
+  | zero => intro s h; exact h
+  | succ n ih =>
+    intro s h
+    unfold whileN
+    by_cases hc : c s = true
+    · rw [if_pos hc]; exact ih _ (hstep s h hc)
+    · rw [if_neg hc]; exact h
